@@ -31,6 +31,7 @@ import AutosarVerif.Lemmas.StepFrame
 import AutosarVerif.Lemmas.StepX
 import AutosarVerif.Lemmas.MoveOp
 import AutosarVerif.Lemmas.StepY
+import AutosarVerif.Lemmas.MoveFull
 
 namespace AV.C11
 open AV.W
@@ -121,5 +122,13 @@ theorem C11_move_name_failure_unreachable : type_of% @AV.W.nameFail_impossible :
 /-- a refusal of ANY operation of `OpY` (incl. move and copy) in a reachable state leaves the world unchanged
 `theorem reachY_err_frame (hH : IdxHyp S V vOk) (hR : RefWF S) (hv32 : vOk &&& 0xFFFFFFFF = vOk) {w : World} (hr : ReachY S V vOk rootAttrs w) (op : OpY) (h : opYRefuses S V w op) : (applyOpY S V rootAttrs w op).1 = w` -/
 theorem C11_refusals_in_reachable_states_incl_move_and_copy : type_of% @AV.W.reachY_err_frame := @AV.W.reachY_err_frame
+
+
+/-! ### added later in the third session (loads, cross-model moves, merge order): restated by name
+(`type_of%` keeps the statement identical to the lemma; the signature is quoted in the comment) -/
+
+/-- `move_element_here` inside one model OR between models (`opMoveAny`, what the driver runs): a refusal leaves the world unchanged, unconditionally (since the repairs e563568 and c4f0cbe)
+`theorem opMoveAny_err_frame (w : World) (p x : Nat) (pos? : Option Nat) (h : (opMoveAny S V w p x pos?).2 = .err) : (opMoveAny S V w p x pos?).1 = w` -/
+theorem C11_move_any : type_of% @AV.W.opMoveAny_err_frame := @AV.W.opMoveAny_err_frame
 
 end AV.C11
